@@ -67,3 +67,43 @@ fn u3_tables_are_the_documented_ones() {
     let mut i = 0;
     while i < 16 { assert!(KEY_ARY[i] == doc[i] && VAL_ARY[i] == doc[i]); i += 1; }
 }
+
+// ---- is_valid_value / is_valid_key: assert-only helpers used inside debug_assert! (stubs on the Verus side) ----------
+fn is_slot_size(s: u32) -> bool { is_class(s) || (s > 1024 && s % 128 == 0) }
+#[kani::proof]
+#[kani::unwind(18)]
+fn u3_is_valid_value() {
+    let s: u32 = kani::any();
+    kani::assume(is_slot_size(s));
+    assert!(ValuePieceSize::new(s).is_valid_value());
+}
+#[kani::proof]
+#[kani::unwind(18)]
+fn u3_is_valid_key() {
+    let s: u32 = kani::any();
+    kani::assume(is_slot_size(s));
+    assert!(KeyPieceSize::new(s).is_valid_key());
+}
+
+// ---- the sequential slot walk used by the statistics calls: one step, on a mock file (C06 / C17) -----------------------
+struct MockFile { start: u64, end: u64, size: u32 }
+impl super::PieceA<Key> for MockFile {
+    fn piece_offset_start(&self) -> std::io::Result<PieceOffset<Key>> { Ok(KeyPieceOffset::new(self.start)) }
+    fn piece_offset_end(&self) -> std::io::Result<PieceOffset<Key>> { Ok(KeyPieceOffset::new(self.end)) }
+    fn piece_size(&self, _offset: PieceOffset<Key>) -> std::io::Result<PieceSize<Key>> { Ok(KeyPieceSize::new(self.size)) }
+}
+#[kani::proof]
+fn u3_slot_walk_one_step() {
+    let start: u64 = kani::any(); let end: u64 = kani::any(); let size: u32 = kani::any(); let cur: u64 = kani::any();
+    kani::assume(start == 192 && end <= 0x4000_0000_0000_0000 && cur <= end);
+    let mut it = super::PieceOffsetIter::<Key>::new(Box::new(MockFile { start, end, size })).unwrap();
+    it.piece_offset = KeyPieceOffset::new(cur);
+    let r = it.next_piece_offset().unwrap();
+    let want = if cur == 0 { start } else { cur + size as u64 };
+    match r {
+        Some(o) => { assert!(o.as_value() == want && want < end); assert!(it.piece_offset.as_value() == want); }
+        None => { assert!(want >= end); assert!(it.piece_offset.as_value() == cur); }
+    }
+    // with a positive slot size the walk advances strictly (termination of the statistics calls under heap_ok)
+    if size > 0 && cur != 0 { if let Some(o) = r { assert!(o.as_value() > cur); } }
+}
